@@ -13,6 +13,11 @@ Structure (DESIGN §3 C05, Appendix B):
  (e) Any-typed fields: only JSON-able kinds are stored (xlsx._get_cell_value, xls._get_cell_values, ods).
 Known finding F6 (marker keys in document content) is excluded from the round-trip lemma through
 known_findings.json only; the unrestricted obligation is generated, fails, and is replayed on every run.
+Round 7 (contracts/c05reflect.py): verified instead of assumed / syntactic / bounded-only --
+ (f) `_get_type_registry` on its real body (processed-set induction over dir(data_types); module invariant "registry empty or complete");
+ (g) `cli._build_parser` (--json / --json-unit / --binary are store_true switches under the attribute names main reads);
+ (h) every concrete `to_json` (== SX(self, True), default of the real signature) and `ExtractionInterface.from_json` (== DESERDC(data));
+ (i) `FileMetadataInterface.populate_from_path` (str into the four path fields), `__post_init__` idempotence, `_get_field_types`.
 """
 import ast
 import json
@@ -41,7 +46,14 @@ V, VL, KV, SL, H = sp.V, sp.VL, sp.KV, sp.SL, sp.H
 sv = sp.sv
 T, F = z3.BoolVal(True), z3.BoolVal(False)
 
-EXECUTOR = SerExecutor
+from contracts import c05reflect as rf
+
+
+class C05Executor(rf.ReflectMixin, SerExecutor):
+    """SerExecutor + the reflection rules of round 7 (dir / getattr over a repository module, the module-level registry)."""
+
+
+EXECUTOR = C05Executor
 EXECUTOR_KW = {}
 
 
@@ -115,6 +127,8 @@ def m_is_dataclass(ex, st, args, kwargs, node):
         return [(st, VBool(sp.norm(V.is_DC(v.t))))]
     if isinstance(v, PTok) and v.what == "cls":
         return [(st, VBool(True))]
+    if isinstance(v, PTok) and v.what == "modattr":
+        return [(st, VBool(rf.ISDC(v.b)))]
     return ex.havoc_call(st, "is_dataclass", args, node)
 
 
@@ -183,8 +197,28 @@ def m_get_type_hints(ex, st, args, kwargs, node):
     return ex.havoc_call(st, "typing.get_type_hints", args, node)
 
 
+def registry_state_names():
+    """Module-level names of serialization.py that start as an empty dict and are used by `_get_type_registry` (found by role)."""
+    try:
+        m = loader.module(SER_PY)
+        fn = m.functions.get("_get_type_registry")
+        used = {x.id for x in ast.walk(fn) if isinstance(x, ast.Name)} if fn is not None else set()
+        out = []
+        for nm_, e in m.assigns.items():
+            empty = (isinstance(e, ast.Dict) and not e.keys) or (isinstance(e, ast.Call) and isinstance(e.func, ast.Name) and e.func.id == "dict"
+                                                                    and not e.args and not e.keywords)
+            if empty and nm_ in used:
+                out.append(nm_)
+        return out
+    except Exception:  # noqa
+        return []
+
+
 def install_models(reg):
     install_cli_models(reg)
+    rf.install_argparse(reg)
+    for nm_ in registry_state_names():
+        reg.module_consts[(SER_PY, nm_)] = PTok("typereg")
     reg.ext_models["dataclasses.is_dataclass"] = m_is_dataclass
     reg.ext_models["dataclasses.fields"] = m_fields
     reg.ext_models["base64.b64encode"] = m_b64encode
@@ -346,6 +380,29 @@ def ser_comp_specs(ex, st, n, kind, what):
     return None
 
 
+# helpers whose contract exists only while the helper does (inlining a helper into its caller is a harmless edit: the caller's own
+# contract then covers the inlined code)
+OPTIONAL_HELPERS = {f"{SER_PY}::_get_field_types", f"{CLI_PY}::_build_parser"}
+
+
+def post_report(c, rep):
+    """Obligations that exist only while an optional helper does (its own, and the call-site preconditions of its contract in the
+    callers) follow the code: checked and counted like any other, but not locked (`volatile`) -- inlining the helper is a harmless edit,
+    and the caller's own locked obligations are the vacuity guard."""
+    names = [t.split("::")[1] for t in OPTIONAL_HELPERS]
+    for o in rep.obligations:
+        if any(n in o.get("id", "") for n in names):
+            o["volatile"] = True
+
+
+def _exists(target):
+    try:
+        rel, qual = target.split("::")
+        return loader.module(rel).functions.get(qual) is not None
+    except Exception:  # noqa
+        return True
+
+
 def contracts(reg):
     install_models(reg)
     out = []
@@ -396,15 +453,83 @@ def contracts(reg):
     out.append(c)
     out.append(FnContract(
         target=f"{SER_PY}::serialize_extraction",
-        params=[("value", p_pv()), ("include_binary", p_bool())],
+        params=[("value", p_pv()), ("include_binary", p_bool_sig(SER_PY, "serialize_extraction", 1))],
         requires=lambda c: sp.SEROK(pvt(c, "value")),
         returns=lambda c: PV(sp.SX(pvt(c, "value"), c.args["include_binary"].t)),
         ensures=[("always-a-json-object", lambda c: V.is_Dict(c.ex.to_pv(c.st, c.result)) if c.ex.to_pv(c.st, c.result) is not None else F)],
         note="SER(value) if that is an object, else {'value': SER(value)}"))
     out.extend(decoder_contracts())
+    out.extend(method_contracts())
+    try:
+        rf.install_pathlib(reg)
+        pf = f"{DT_PY}::FileMetadataInterface.populate_from_path"
+        if _exists(pf):
+            out.append(rf.populate_contract(pf, Maker, FnContract, Raises))
+    except Exception:  # noqa  (the pack's contracts() never lets an exception escape)
+        pass
+    try:
+        rf.install_strip(reg)
+        out.extend(rf.post_init_contracts(loader.module(DT_PY), DT_PY, Maker, FnContract, Raises))
+    except Exception:  # noqa
+        pass
     out.extend(cli_contracts())
     out.extend(store_site_contracts(reg))
+    out = [c_ for c_ in out if not (c_.target in OPTIONAL_HELPERS and not _exists(c_.target))]
     return bind_roles(out)
+
+
+def p_bool_sig(rel, qual, pos):
+    """A Boolean parameter whose call-site default is the one the REAL signature declares (read off the AST on every run: a changed
+    default changes what callers that omit the argument get).  No literal Boolean default -> no default (callers must pass it)."""
+    mk = p_bool()
+    try:
+        fn = loader.module(rel).functions.get(qual)
+        a = fn.args
+        params = a.posonlyargs + a.args
+        defaults = [None] * (len(params) - len(a.defaults)) + list(a.defaults)
+        allp = list(zip(params, defaults)) + list(zip(a.kwonlyargs, a.kw_defaults))
+        d = allp[pos][1]
+        if isinstance(d, ast.Constant) and isinstance(d.value, bool):
+            val = d.value
+            return Maker(mk.fn, desc=f"bool (default {val} from the signature)", default=lambda ex, st: VBool(val))
+    except Exception:  # noqa
+        pass
+    return mk
+
+
+def method_contracts():
+    """Round 7: the public methods themselves under contract (before: a syntactic `glue` pattern).  Every concrete `to_json` of
+    data_types.py returns SX(self, True) -- the full encoding, binary payloads included -- and `ExtractionInterface.from_json`
+    is DESERDC of its argument; both verified on their real bodies through the contracts of serialize_extraction /
+    deserialize_extraction (argument defaults are those of the real signatures)."""
+    from pyvc.verify import p_unk
+    out = []
+    try:
+        m = loader.module(DT_PY)
+    except (OSError, SyntaxError):
+        return out
+    for q, fn in m.functions.items():
+        if "<locals>" in q or "." not in q:
+            continue
+        body = [b for b in fn.body if not (isinstance(b, ast.Expr) and isinstance(b.value, ast.Constant))]
+        nparams = len(fn.args.posonlyargs + fn.args.args)
+        if q.endswith(".to_json") and body and nparams == 1 and not fn.args.kwonlyargs:
+            out.append(FnContract(
+                target=f"{DT_PY}::{q}", params=[("self", p_pv(only=("DC",)))],
+                requires=lambda c: sp.SEROK(pvt(c, "self")),
+                returns=lambda c: PV(sp.SX(pvt(c, "self"), T)),
+                note="to_json() == SX(self, include_binary=True): the complete encoding of the instance"))
+        if q.endswith(".from_json") and body and nparams == 2:
+            out.append(FnContract(
+                target=f"{DT_PY}::{q}", params=[("cls", p_unk()), ("data", p_pv())],
+                requires=lambda c: sp.JOK(pvt(c, "data")),
+                returns=lambda c: PV(sp.DESERDC(V.ents(pvt(c, "data")), sp.NOCLS)),
+                raises=[Raises("ValueError", when=lambda c: z3.Or(z3.Not(V.is_Dict(pvt(c, "data"))), z3.Not(sp.HASKEY(V.ents(pvt(c, "data")), sv("_type")))),
+                               label="not an object with a _type marker"),
+                        Raises("Exception", sub=True, when=lambda c: z3.And(V.is_Dict(pvt(c, "data")), sp.HASKEY(V.ents(pvt(c, "data")), sv("_type"))),
+                               label="malformed encoding")],
+                note="from_json(data) == DESERDC(data): the class named by _type, every declared field decoded by its hint"))
+    return out
 
 
 # ------------------------------------------------------------- the decoder --
@@ -498,11 +623,26 @@ def dd_nameset_comp(ex, st, cn, nm, cond, vt, has, val):
 
 def decoder_contracts():
     out = []
-    out.append(FnContract(
-        target=f"{SER_PY}::_get_type_registry", params=[], assumed=True,
+    site = lambda f: (lambda c: T if getattr(c, "at_call_site", False) else f(c))
+    c = FnContract(
+        target=f"{SER_PY}::_get_type_registry", params=[],
+        hyps=site(rf.entry_state),
+        ensures=[("result-is-exactly-the-dataclass-classes-of-data_types", site(rf.result_complete)),
+                 ("published-registry-is-complete", site(rf.published_complete))],
         result_maker=lambda ex, st, ctx: PTok("registry"),
-        note="reflective registry: name -> class for the dataclasses of data_types; its content is re-derived from the AST "
-             "and cross-checked against the real function natively (obligation registry#matches-reflective-registry)"))
+        note="VERIFIED (round 7; was assumed): for every name q, q is a key iff REG(q) := q in dir(data_types) and the attribute is a class and "
+             "a dataclass, and the value is the object bound to q; the module-level registry is left complete (module invariant: empty or "
+             "complete, so later calls return it as it is).  Call sites see the token `registry` (q in registry == REG(q), registry[q] = the "
+             "class bound to q), which this postcondition implies.  Still assumed: dir / getattr / isinstance(type) / is_dataclass as "
+             "predicates INDIR / ISCLS / ISDC on names (contracts/c05reflect.py); content cross-checked natively on every run")
+    c.dirnames_loop = LoopSpec(inv=rf.dirnames_inv, label="dir")
+    out.append(c)
+    out.append(FnContract(
+        target=f"{SER_PY}::_get_field_types", params=[("cls", p_hint())],
+        requires=lambda c: z3.And(H.is_HCls(pvt(c, "cls")), sp.REG(H.cname(pvt(c, "cls")))),
+        returns=lambda c: PTok("hints", cls_name(c.args["cls"])),
+        raises=[Raises("Exception", sub=True, label="typing.get_type_hints: unresolvable annotation")],
+        note="the resolved annotations of the class, nothing else (relative to the assumed typing.get_type_hints)"))
     out.append(FnContract(
         target=f"{SER_PY}::_unwrap_optional", params=[("tp", p_hint("optional-or-not"))],
         returns=lambda c: VTuple([PH(z3.If(H.is_HOpt(pvt(c, "tp")), H.oarg(pvt(c, "tp")), pvt(c, "tp"))), VBool(H.is_HOpt(pvt(c, "tp")))]),
@@ -612,8 +752,13 @@ def main_contract(res_spec, unit_spec):
     out = [FnContract(target="sharepoint2text/__init__.py::read_file", params=[("path", p_unk())], assumed=True,
                       result_maker=read_file_result, may_raise_any=True,
                       note="yields the extraction results (a finite sequence of encodable dataclass instances) or raises"),
-           FnContract(target=f"{CLI_PY}::_build_parser", params=[], assumed=True, result_maker=lambda ex, st, ctx: VExt("CliParser"),
-                      note="argparse parser with the flags --json, --json-unit, --binary"),
+           FnContract(target=f"{CLI_PY}::_build_parser", params=[], result_maker=lambda ex, st, ctx: VExt("CliParser"),
+                      ensures=[("json-json_unit-binary-are-store_true-switches",
+                                lambda c: T if getattr(c, "at_call_site", False) else rf.parser_flags(c, CLI_FLAGS))],
+                      note="VERIFIED (round 7; was assumed): every add_argument call of the real body is recorded; --json / --json-unit / "
+                           "--binary are declared once each as store_true switches stored under json / json_unit / binary (what main reads), "
+                           "which is what the call-site view (parser whose namespace has these three Booleans) needs.  argparse itself "
+                           "stays an assumed library (contracts/c05reflect.install_argparse)"),
            FnContract(target=f"{CLI_PY}::main", params=[("argv", p_unk())],
                       ensures=[("stdout-is-json-dumps-of-the-shaped-payload", stdout_is_shaped_json)],
                       raises=[Raises("Exception", sub=True), Raises("SystemExit")],
@@ -622,6 +767,7 @@ def main_contract(res_spec, unit_spec):
     return out
 
 
+CLI_FLAGS = {"--json": "json", "--json-unit": "json_unit", "--binary": "binary"}
 JSON_DUMPS_DEFAULTS = {"skipkeys": False, "ensure_ascii": True, "check_circular": True, "allow_nan": True, "cls": None, "indent": None,
                        "separators": None, "default": None, "sort_keys": False}
 
@@ -913,8 +1059,12 @@ def registry(repo, tier):
                                   DT_PY, kind="registry", backend="ground", definite=False))
     # __post_init__ only normalises its own fields idempotently (strip / dict mirror)
     bad = []
+    try:
+        verified_pi = {c_.target.split("::")[1].split(".")[0] for c_ in rf.post_init_contracts(d["module"], DT_PY, Maker, FnContract, Raises)}
+    except Exception:  # noqa
+        verified_pi = set()
     for name, info in classes.items():
-        if not info["post_init"]:
+        if not info["post_init"] or name in verified_pi:       # round 7: under a verified idempotence contract of its own
             continue
         cn = d["module"].classes[name]
         fn = [b for b in cn.body if isinstance(b, ast.FunctionDef) and b.name == "__post_init__"][0]
@@ -1008,9 +1158,15 @@ def returns_serialize_of_self(body):
 
 
 def glue(repo, tier):
-    """The public methods are thin wrappers of the functions under contract (syntactic; unrecognised shape -> UNDECIDED)."""
+    """The public methods are thin wrappers of the functions under contract.  Round 7: every concrete to_json / from_json has a VERIFIED
+    contract of its own (method_contracts); what remains here is the coverage guard: a to_json / from_json method that is not under
+    such a contract must at least match the syntactic wrapper pattern, else UNDECIDED."""
     obls = []
     m = loader.module(DT_PY, repo)
+    try:
+        verified = {c.target.split("::")[1] for c in method_contracts()}
+    except Exception:  # noqa
+        verified = set()
     bad, n = [], 0
     for q, fn in m.functions.items():
         if q.endswith(".to_json") and "<locals>" not in q:
@@ -1018,13 +1174,33 @@ def glue(repo, tier):
             if not body and q.split(".")[0] in ("ExtractionInterface", "UnitInterface"):
                 continue      # abstract declaration
             n += 1
-            if not returns_serialize_of_self(body):
+            if q not in verified and not returns_serialize_of_self(body):
                 bad.append(f"{q}: {ast.unparse(body[-1])[:60] if body else 'empty'}")
-    obls.append(ground_obligation("C05/data_types.py::to_json/glue#every-to_json-is-serialize_extraction-of-self", n >= 30 and not bad, "; ".join(bad) or f"{n} to_json methods",
+    obls.append(ground_obligation("C05/data_types.py::to_json/glue#every-to_json-is-serialize_extraction-of-self", n >= 30 and not bad,
+                                  "; ".join(bad) or f"{n} to_json methods, {len([q for q in verified if q.endswith('.to_json')])} under a verified contract",
                                   DT_PY, kind="glue", backend="ground", definite=False))
     fj = m.functions.get("ExtractionInterface.from_json")
-    ok = fj is not None and [ast.unparse(b) for b in fj.body if not (isinstance(b, ast.Expr) and isinstance(b.value, ast.Constant))] == ["return deserialize_extraction(data)"]
-    obls.append(ground_obligation("C05/data_types.py::ExtractionInterface.from_json/glue#from_json-is-deserialize_extraction", ok, "", DT_PY, kind="glue", backend="ground", definite=False))
+    ok = fj is not None and ("ExtractionInterface.from_json" in verified or
+                             [ast.unparse(b) for b in fj.body if not (isinstance(b, ast.Expr) and isinstance(b.value, ast.Constant))] == ["return deserialize_extraction(data)"])
+    obls.append(ground_obligation("C05/data_types.py::ExtractionInterface.from_json/glue#from_json-is-deserialize_extraction", ok,
+                                  "under a verified contract" if "ExtractionInterface.from_json" in verified else "", DT_PY, kind="glue", backend="ground", definite=False))
+    # module invariant behind the verified contract of _get_type_registry: its state starts empty and nobody else touches it
+    try:
+        sm = loader.module(SER_PY, repo)
+        names = registry_state_names()
+        acc = sm.functions.get("_get_type_registry")
+        outside = []
+        for q_, fn_ in sm.functions.items():
+            if fn_ is acc or "<locals>" in q_:
+                continue
+            outside += [f"{q_}:{x.lineno}" for x in ast.walk(fn_) if isinstance(x, ast.Name) and x.id in names]
+        if acc is not None:
+            obls.append(ground_obligation("C05/serialization.py::_get_type_registry/state#registry-state-starts-empty-and-is-private-to-its-accessor",
+                                          bool(names) and not outside, "; ".join(outside) or f"{names}: empty dict at import, used by _get_type_registry only",
+                                          SER_PY, kind="glue", backend="ground", definite=False))
+    except Exception as e:  # noqa
+        obls.append(ground_obligation("C05/serialization.py::_get_type_registry/state#registry-state-starts-empty-and-is-private-to-its-accessor", False, str(e),
+                                      SER_PY, kind="glue", backend="ground", definite=False))
     imp_ok = m.imports.get("serialize_extraction", "").endswith("serialization.serialize_extraction") and m.imports.get("deserialize_extraction", "").endswith("serialization.deserialize_extraction")
     obls.append(ground_obligation("C05/data_types.py::imports/glue#names-bound-to-serialization-module", imp_ok, str({k: m.imports.get(k) for k in ("serialize_extraction", "deserialize_extraction")}),
                                   DT_PY, kind="glue", backend="ground", definite=False))
@@ -1330,7 +1506,15 @@ ASSUMED_MODELS = ["dataclasses.is_dataclass / fields (instance: declared fields 
                   "base64.b64encode/b64decode and str.encode/bytes.decode('utf-8') are inverse pairs on base64 text",
                   "io.BytesIO tell/seek/read (ghost position; read() from position 0 returns the whole payload)",
                   "typing.get_origin / get_args / get_type_hints on the hint shapes of c05spec.H (Python < 3.14: `X | None` has origin types.UnionType)",
-                  f"{SER_PY}::_get_type_registry (reflective; content cross-checked natively against the AST-derived registry on every run)",
+                  "language-level reflection over the module data_types, as predicates on names (contracts/c05reflect.py): dir() lists every attribute "
+                  "name once and getattr of a listed name succeeds; isinstance(obj, type) / is_dataclass(obj) are pure (the body of _get_type_registry "
+                  "is VERIFIED against them since round 7; its content is still cross-checked natively against the AST-derived registry on every run)",
+                  "argparse: an option declared with action='store_true' yields a bool attribute (False unless given) named by dest, else by the first "
+                  "long option string with '-' -> '_' (cli._build_parser is VERIFIED against this since round 7)",
+                  "str.strip() without arguments is idempotent: strip(strip(x)) == strip(x) (the only library fact behind the verified __post_init__ "
+                  "idempotence contracts; validated natively by scope post-init-idempotent)",
+                  "pathlib (as in pack C04): Path(str | Path) total; name / suffix are str; parent a Path; exists() / resolve() may raise OSError / "
+                  "RuntimeError; str(path) is a str (populate_from_path is VERIFIED against this since round 7)",
                   "xlrd.sheet.Cell: ctype in 0..6 and the value kind per ctype; xlrd.xldate_as_tuple returns six ints or raises",
                   "openpyxl reader cell values: None, bool, int, float, str, datetime, date, time, timedelta",
                   "xml Element.get(name, default) returns a str or the default (ODS kind flow)",
